@@ -78,7 +78,7 @@ def _run_body(c, fn, case, ctx, I, suffix, tag=""):
     cuts = c.options.get("cuts")
     if cuts and len(ctx.__dict__.get("cuts_used", ())) != len(cuts):
         missing = [cu for i, cu in enumerate(cuts) if i not in ctx.__dict__.get("cuts_used", ())]
-        msg = "contract cut point(s) of %s not found in the source (statement text changed): %s" % (c.name, [cu["before"] for cu in missing])
+        msg = "contract cut point(s) of %s not found in the source (statement text changed): %s" % (c.name, [cu.get("before") for cu in missing])
         if any(cu.get("havoc") for cu in missing):
             raise ToolLimit(msg)
         # assertion-only cuts forget nothing: every other obligation is still generated (and can still report a violation); only the
